@@ -1,261 +1,501 @@
-// extract: fact extractor (T2).  `extract runner <repo> <out.lean>` reads pkg/canrunner/run.go and writes the
-// runner's code regions (receiver loop body, `transmit`, `setCyclicTransmission`) as Lean atom lists
-// (CanVerif.Gen.RunnerProg).  It fails closed: an unknown statement shape aborts the extraction.
+// extract: translator (T2).  `extract runner <repo> <out.lean>` type-checks the non-test Go files of pkg/canrunner
+// (go/types, source importer) and writes every goroutine body of the runner (RunMessageReceiver, RunMessageTransmitter,
+// Run and every function literal handed to another goroutine) as a structured program over the atoms of
+// Model/Runner.lean (CanVerif.Gen.RunnerProg): statements become seq / alt / loop / blk, calls to functions, methods and
+// closures of the package are inlined as `call`, `return` / `break` / `continue` become ret / brk / cont.
+//
+// Atoms: `Lock()` / `Unlock()` methods are the node lock; a method call on a value whose type has
+// `Descriptor() *descriptor.Message` (a message) is a state access, except the three channel/descriptor getters;
+// `TransmitFrame` is a transmission; a call of a function *value* of type `func(context.Context) error` (the hook
+// signature) is a hook call.  Everything else touches no node state.  Constructs the translator does not understand
+// (goto, labels, fallthrough, defer below the top level of a function, recursion, reassigned closures) make it fail; the
+// check then rests on the correspondence run alone and says so in its evidence.
 package main
 
 import (
 	"fmt"
 	"go/ast"
+	"go/importer"
 	"go/parser"
 	"go/token"
+	"go/types"
 	"os"
 	"path/filepath"
+	"sort"
 	"strings"
 )
 
-var accessMethods = map[string]bool{"Frame": true, "MarshalFrame": true, "UnmarshalFrame": true, "SetReceiveTime": true, "SetTransmitTime": true,
-	"AfterReceiveHook": true, "BeforeTransmitHook": true, "IsCyclicTransmissionEnabled": true, "Reset": true, "String": true}
 var staticMethods = map[string]bool{"Descriptor": true, "WakeUpChan": true, "TransmitEventChan": true}
 
-type extractor struct {
-	msgVar string
-	err    error
+type tr struct {
+	info     *types.Info
+	pkg      *types.Package
+	decls    map[types.Object]*ast.FuncDecl // functions and methods declared in the package
+	closures map[types.Object]*ast.FuncLit  // local variables defined as function literals
+	err      error
+	stack    []string // inlining stack (recursion guard)
+	spawned  []string // programs of function literals that run on other goroutines
 }
 
-func (e *extractor) fail(format string, a ...interface{}) {
-	if e.err == nil {
-		e.err = fmt.Errorf(format, a...)
+func (t *tr) fail(format string, a ...interface{}) {
+	if t.err == nil {
+		t.err = fmt.Errorf(format, a...)
 	}
 }
 
-func (e *extractor) callAtom(c *ast.CallExpr) string {
-	switch f := c.Fun.(type) {
-	case *ast.SelectorExpr:
-		x, _ := f.X.(*ast.Ident)
-		name := f.Sel.Name
-		switch {
-		case name == "Lock":
-			return ".lock"
-		case name == "Unlock":
-			return ".unlock"
-		case x != nil && x.Name == e.msgVar && staticMethods[name]:
-			return fmt.Sprintf(".other %q", "m."+name)
-		case x != nil && x.Name == e.msgVar:
-			// every other method of the message touches message state (unknown ones are treated as accesses)
-			return fmt.Sprintf(".access %q", name)
-		case x != nil && x.Name == "tx" && name == "TransmitFrame":
-			return ".tx"
-		default:
-			xs := "?"
-			if x != nil {
-				xs = x.Name
+// ---- program terms ----
+
+func seq(ps ...string) string {
+	var xs []string
+	for _, p := range ps {
+		if p != "" && p != ".skip" {
+			xs = append(xs, p)
+		}
+	}
+	if len(xs) == 0 {
+		return ".skip"
+	}
+	out := xs[len(xs)-1]
+	for i := len(xs) - 2; i >= 0; i-- {
+		out = "(.seq " + xs[i] + " " + out + ")"
+	}
+	return out
+}
+func alt(ps ...string) string {
+	if len(ps) == 0 {
+		return ".skip"
+	}
+	out := ps[len(ps)-1]
+	for i := len(ps) - 2; i >= 0; i-- {
+		out = "(.alt " + ps[i] + " " + out + ")"
+	}
+	return out
+}
+func atom(a string) string { return "(.atom (" + a + "))" }
+func wrap(k, p string) string { return "(" + k + " " + p + ")" }
+
+// ---- types ----
+
+func isMessage(T types.Type) bool {
+	for _, ty := range []types.Type{T, types.NewPointer(T)} {
+		ms := types.NewMethodSet(ty)
+		for i := 0; i < ms.Len(); i++ {
+			f, ok := ms.At(i).Obj().(*types.Func)
+			if !ok || f.Name() != "Descriptor" {
+				continue
 			}
-			return fmt.Sprintf(".other %q", xs+"."+name)
+			sig := f.Type().(*types.Signature)
+			if sig.Results().Len() == 1 && strings.HasSuffix(sig.Results().At(0).Type().String(), "descriptor.Message") {
+				return true
+			}
 		}
-	case *ast.Ident:
-		if f.Name == "hook" {
-			return ".hook"
-		}
-		return fmt.Sprintf(".other %q", f.Name)
 	}
-	return `.other "call"`
+	return false
 }
 
-// calls returns the atoms of all calls inside an expression / simple statement, inner calls first.
-func (e *extractor) calls(n ast.Node) []string {
-	var out []string
-	if n == nil {
-		return nil
+func isHookSig(T types.Type) bool {
+	sig, ok := T.Underlying().(*types.Signature)
+	if !ok || sig.Params().Len() != 1 || sig.Results().Len() != 1 {
+		return false
 	}
+	return sig.Params().At(0).Type().String() == "context.Context" && sig.Results().At(0).Type().String() == "error"
+}
+
+// ---- expressions ----
+
+// expr translates the calls inside an expression in evaluation order (arguments before the call).
+func (t *tr) expr(n ast.Node) string {
+	if n == nil {
+		return ".skip"
+	}
+	var out []string
 	var walk func(ast.Node)
 	walk = func(n ast.Node) {
 		ast.Inspect(n, func(x ast.Node) bool {
-			if x == nil {
-				return false
-			}
 			switch x := x.(type) {
+			case nil:
+				return false
 			case *ast.FuncLit:
-				e.fail("function literal inside a region")
+				// a function value that is not called here: it runs elsewhere (another goroutine, a callback)
+				t.spawned = append(t.spawned, t.funcBody(x.Body, "func literal"))
 				return false
 			case *ast.CallExpr:
 				for _, a := range x.Args {
 					walk(a)
 				}
-				if sel, ok := x.Fun.(*ast.SelectorExpr); ok {
-					walk(sel.X)
+				switch f := x.Fun.(type) {
+				case *ast.SelectorExpr:
+					walk(f.X)
+				case *ast.FuncLit:
+					out = append(out, wrap(".call", t.funcBody(f.Body, "func literal")))
+					return false
+				case *ast.Ident:
+				default:
+					walk(x.Fun)
 				}
-				out = append(out, e.callAtom(x))
+				out = append(out, t.call(x))
 				return false
 			}
 			return true
 		})
 	}
 	walk(n)
-	return out
+	return seq(out...)
 }
 
-func locking(atoms []string) bool {
-	for _, a := range atoms {
-		if a == ".lock" || a == ".unlock" || strings.HasPrefix(a, ".access") || a == ".hook" || a == ".tx" {
-			return true
+func (t *tr) inline(name string, body *ast.BlockStmt) string {
+	for _, s := range t.stack {
+		if s == name {
+			t.fail("recursive call of %s", name)
+			return ".skip"
 		}
 	}
-	return false
+	t.stack = append(t.stack, name)
+	defer func() { t.stack = t.stack[:len(t.stack)-1] }()
+	return wrap(".call", t.funcBody(body, name))
 }
 
-func (e *extractor) block(stmts []ast.Stmt) []string {
-	var out []string
-	for _, s := range stmts {
-		switch s := s.(type) {
-		case *ast.ExprStmt:
-			out = append(out, e.calls(s.X)...)
-		case *ast.AssignStmt:
-			for _, r := range s.Rhs {
-				out = append(out, e.calls(r)...)
+func (t *tr) call(c *ast.CallExpr) string {
+	if tv, ok := t.info.Types[c.Fun]; ok && tv.IsType() {
+		return atom(`.other "conversion"`)
+	}
+	switch f := c.Fun.(type) {
+	case *ast.SelectorExpr:
+		name := f.Sel.Name
+		if sel, ok := t.info.Selections[f]; ok && sel.Kind() == types.MethodVal {
+			switch {
+			case name == "Lock" && len(c.Args) == 0:
+				return atom(".lock")
+			case name == "Unlock" && len(c.Args) == 0:
+				return atom(".unlock")
+			case name == "TransmitFrame":
+				return atom(".tx")
+			case isMessage(sel.Recv()) && !staticMethods[name]:
+				return atom(fmt.Sprintf(".access %q", name))
 			}
-		case *ast.DeclStmt:
-			out = append(out, e.calls(s)...)
-		case *ast.ReturnStmt:
-			for _, r := range s.Results {
-				out = append(out, e.calls(r)...)
+			if fd, ok := t.decls[sel.Obj()]; ok {
+				return t.inline("method "+sel.Obj().(*types.Func).FullName(), fd.Body)
 			}
-			out = append(out, ".retIf")
-		case *ast.BranchStmt:
-			if s.Tok == token.CONTINUE || s.Tok == token.BREAK {
-				out = append(out, ".retIf")
-			} else {
-				e.fail("unsupported branch statement %v", s.Tok)
-			}
-		case *ast.IfStmt:
-			if s.Init != nil {
-				out = append(out, e.block([]ast.Stmt{s.Init})...)
-			}
-			out = append(out, e.calls(s.Cond)...)
-			branches := [][]ast.Stmt{s.Body.List}
-			switch el := s.Else.(type) {
-			case nil:
-			case *ast.BlockStmt:
-				branches = append(branches, el.List)
-			default:
-				e.fail("unsupported else shape")
-			}
-			leaves := false
-			for _, b := range branches {
-				atoms := e.block(b)
-				if locking(atoms) {
-					e.fail("locking, state access, hook call or transmission inside a conditional branch")
+			return atom(fmt.Sprintf(".other %q", "."+name))
+		}
+		// qualified identifier pkg.F, or a field of function type
+		if obj, ok := t.info.Uses[f.Sel]; ok {
+			if fn, ok := obj.(*types.Func); ok {
+				if fd, ok := t.decls[fn]; ok {
+					return t.inline("func "+fn.FullName(), fd.Body)
 				}
-				for _, a := range atoms {
-					if a == ".retIf" {
-						leaves = true
+				return atom(fmt.Sprintf(".other %q", fn.FullName()))
+			}
+		}
+		if tv, ok := t.info.Types[c.Fun]; ok && isHookSig(tv.Type) {
+			return atom(".hook")
+		}
+		return atom(fmt.Sprintf(".other %q", "."+name))
+	case *ast.Ident:
+		obj := t.info.Uses[f]
+		switch o := obj.(type) {
+		case *types.Builtin:
+			return atom(fmt.Sprintf(".other %q", f.Name))
+		case *types.Func:
+			if fd, ok := t.decls[o]; ok {
+				return t.inline("func "+o.FullName(), fd.Body)
+			}
+			return atom(fmt.Sprintf(".other %q", o.FullName()))
+		case *types.Var:
+			if fl, ok := t.closures[o]; ok {
+				return t.inline(fmt.Sprintf("closure %s@%d", f.Name, fl.Pos()), fl.Body)
+			}
+			if isHookSig(o.Type()) {
+				return atom(".hook")
+			}
+			return atom(fmt.Sprintf(".other %q", "value "+f.Name))
+		}
+		return atom(fmt.Sprintf(".other %q", f.Name))
+	}
+	if tv, ok := t.info.Types[c.Fun]; ok && isHookSig(tv.Type) {
+		return atom(".hook")
+	}
+	return atom(`.other "call"`)
+}
+
+// ---- statements ----
+
+func (t *tr) stmts(list []ast.Stmt) string {
+	var out []string
+	for _, s := range list {
+		out = append(out, t.stmt(s))
+	}
+	return seq(out...)
+}
+
+func (t *tr) stmt(s ast.Stmt) string {
+	switch s := s.(type) {
+	case nil, *ast.EmptyStmt:
+		return ".skip"
+	case *ast.ExprStmt:
+		return t.expr(s.X)
+	case *ast.SendStmt:
+		return seq(t.expr(s.Chan), t.expr(s.Value))
+	case *ast.IncDecStmt:
+		return t.expr(s.X)
+	case *ast.AssignStmt:
+		var out []string
+		for i, r := range s.Rhs {
+			if fl, ok := r.(*ast.FuncLit); ok && len(s.Lhs) == len(s.Rhs) {
+				if id, ok := s.Lhs[i].(*ast.Ident); ok && s.Tok == token.DEFINE {
+					if obj := t.info.Defs[id]; obj != nil {
+						t.closures[obj] = fl // a closure definition runs nothing
+						continue
 					}
 				}
 			}
-			if leaves {
-				out = append(out, ".retIf")
-			} else {
-				out = append(out, `.other "if"`)
-			}
-		default:
-			e.fail("unsupported statement %T", s)
+			out = append(out, t.expr(r))
 		}
+		for _, l := range s.Lhs {
+			if id, ok := l.(*ast.Ident); ok {
+				if s.Tok != token.DEFINE {
+					if _, isClosure := t.closures[t.info.Uses[id]]; isClosure {
+						t.fail("closure variable %s is reassigned", id.Name)
+					}
+				}
+				continue
+			}
+			out = append(out, t.expr(l))
+		}
+		return seq(out...)
+	case *ast.DeclStmt:
+		gd, ok := s.Decl.(*ast.GenDecl)
+		if !ok {
+			return ".skip"
+		}
+		var out []string
+		for _, sp := range gd.Specs {
+			if vs, ok := sp.(*ast.ValueSpec); ok {
+				for i, v := range vs.Values {
+					if fl, isLit := v.(*ast.FuncLit); isLit && len(vs.Names) == len(vs.Values) {
+						if obj := t.info.Defs[vs.Names[i]]; obj != nil {
+							t.closures[obj] = fl
+							continue
+						}
+					}
+					out = append(out, t.expr(v))
+				}
+			}
+		}
+		return seq(out...)
+	case *ast.BlockStmt:
+		return t.stmts(s.List)
+	case *ast.ReturnStmt:
+		var out []string
+		for _, r := range s.Results {
+			out = append(out, t.expr(r))
+		}
+		return seq(append(out, ".ret")...)
+	case *ast.BranchStmt:
+		if s.Label != nil {
+			t.fail("labelled %v", s.Tok)
+			return ".skip"
+		}
+		switch s.Tok {
+		case token.BREAK:
+			return ".brk"
+		case token.CONTINUE:
+			return ".cont"
+		}
+		t.fail("unsupported branch statement %v", s.Tok)
+		return ".skip"
+	case *ast.IfStmt:
+		init := t.stmt(s.Init)
+		cond := t.expr(s.Cond)
+		then := t.stmts(s.Body.List)
+		els := ".skip"
+		switch e := s.Else.(type) {
+		case nil:
+		case *ast.BlockStmt:
+			els = t.stmts(e.List)
+		case *ast.IfStmt:
+			els = t.stmt(e)
+		default:
+			t.fail("unsupported else shape")
+		}
+		return seq(init, cond, alt(then, els))
+	case *ast.SwitchStmt:
+		return seq(t.stmt(s.Init), t.expr(s.Tag), t.cases(s.Body))
+	case *ast.TypeSwitchStmt:
+		return seq(t.stmt(s.Init), t.stmt(s.Assign), t.cases(s.Body))
+	case *ast.SelectStmt:
+		var branches []string
+		for _, c := range s.Body.List {
+			cc := c.(*ast.CommClause)
+			branches = append(branches, seq(t.stmt(cc.Comm), t.stmts(cc.Body)))
+		}
+		if len(branches) == 0 {
+			return ".skip"
+		}
+		return wrap(".blk", alt(branches...))
+	case *ast.ForStmt:
+		init := t.stmt(s.Init)
+		cond := t.expr(s.Cond)
+		body := t.stmts(s.Body.List)
+		post := t.stmt(s.Post)
+		if post != ".skip" && strings.Contains(body, ".cont") {
+			t.fail("continue in a loop with a post statement")
+		}
+		return seq(init, wrap(".loop", seq(cond, body, post)), cond)
+	case *ast.RangeStmt:
+		return seq(t.expr(s.X), wrap(".loop", t.stmts(s.Body.List)))
+	case *ast.GoStmt:
+		var out []string
+		for _, a := range s.Call.Args {
+			out = append(out, t.expr(a))
+		}
+		if f, ok := s.Call.Fun.(*ast.FuncLit); ok {
+			t.spawned = append(t.spawned, t.funcBody(f.Body, "go func literal"))
+		} else {
+			t.spawned = append(t.spawned, t.call(s.Call)) // the callee runs on the new goroutine
+		}
+		return seq(append(out, atom(`.other "go"`))...)
+	case *ast.DeferStmt:
+		t.fail("defer below the top level of a function")
+		return ".skip"
+	case *ast.LabeledStmt:
+		t.fail("labelled statement")
+		return ".skip"
 	}
-	return out
+	t.fail("unsupported statement %T", s)
+	return ".skip"
 }
 
-func leanList(name string, atoms []string) string {
-	return fmt.Sprintf("def %s : List Atom := [%s]\n", name, strings.Join(atoms, ", "))
+func (t *tr) cases(body *ast.BlockStmt) string {
+	var branches []string
+	hasDefault := false
+	for _, c := range body.List {
+		cc := c.(*ast.CaseClause)
+		if cc.List == nil {
+			hasDefault = true
+		}
+		var conds []string
+		for _, e := range cc.List {
+			conds = append(conds, t.expr(e))
+		}
+		for _, st := range cc.Body {
+			if b, ok := st.(*ast.BranchStmt); ok && b.Tok == token.FALLTHROUGH {
+				t.fail("fallthrough")
+			}
+		}
+		branches = append(branches, seq(append(conds, t.stmts(cc.Body))...))
+	}
+	if !hasDefault {
+		branches = append(branches, ".skip")
+	}
+	return wrap(".blk", alt(branches...))
+}
+
+// funcBody translates a function body.  A `defer` at the top level of the body covers the statements after it: they
+// become an inner call (so that their returns end there), followed by the deferred call.
+func (t *tr) funcBody(body *ast.BlockStmt, what string) string {
+	return t.bodyFrom(body.List, what)
+}
+
+func (t *tr) bodyFrom(list []ast.Stmt, what string) string {
+	for i, s := range list {
+		d, ok := s.(*ast.DeferStmt)
+		if !ok {
+			continue
+		}
+		var pre []string
+		for _, a := range d.Call.Args {
+			pre = append(pre, t.expr(a))
+		}
+		var p string
+		if fl, ok := d.Call.Fun.(*ast.FuncLit); ok {
+			p = wrap(".call", t.funcBody(fl.Body, "deferred literal"))
+		} else {
+			p = t.call(d.Call)
+		}
+		return seq(t.stmts(list[:i]), seq(pre...), wrap(".call", t.bodyFrom(list[i+1:], what)), p)
+	}
+	return t.stmts(list)
 }
 
 func runner(repo, out string) error {
-	fset := token.NewFileSet()
-	f, err := parser.ParseFile(fset, filepath.Join(repo, "pkg/canrunner/run.go"), nil, 0)
+	dir, err := filepath.Abs(filepath.Join(repo, "pkg/canrunner"))
 	if err != nil {
 		return err
 	}
+	ents, err := os.ReadDir(dir)
+	if err != nil {
+		return err
+	}
+	fset := token.NewFileSet()
+	var names []string
+	for _, e := range ents {
+		if strings.HasSuffix(e.Name(), ".go") && !strings.HasSuffix(e.Name(), "_test.go") {
+			names = append(names, e.Name())
+		}
+	}
+	sort.Strings(names)
+	var files []*ast.File
+	for _, n := range names {
+		f, err := parser.ParseFile(fset, filepath.Join(dir, n), nil, 0)
+		if err != nil {
+			return err
+		}
+		files = append(files, f)
+	}
+	absOut, err := filepath.Abs(out)
+	if err != nil {
+		return err
+	}
+	if err := os.Chdir(dir); err != nil { // the source importer resolves imports relative to the working directory
+		return err
+	}
+	var terrs []string
+	conf := types.Config{Importer: importer.ForCompiler(fset, "source", nil), Error: func(err error) { terrs = append(terrs, err.Error()) }}
+	info := &types.Info{Types: map[ast.Expr]types.TypeAndValue{}, Selections: map[*ast.SelectorExpr]*types.Selection{},
+		Uses: map[*ast.Ident]types.Object{}, Defs: map[*ast.Ident]types.Object{}}
+	pkg, _ := conf.Check("go.einride.tech/can/pkg/canrunner", fset, files, info)
+	if len(terrs) > 0 {
+		return fmt.Errorf("type check: %s", strings.Join(terrs, "; "))
+	}
+	t := &tr{info: info, pkg: pkg, decls: map[types.Object]*ast.FuncDecl{}, closures: map[types.Object]*ast.FuncLit{}}
+	byName := map[string]*ast.FuncDecl{}
+	for _, f := range files {
+		for _, d := range f.Decls {
+			if fd, ok := d.(*ast.FuncDecl); ok && fd.Body != nil {
+				if obj := info.Defs[fd.Name]; obj != nil {
+					t.decls[obj] = fd
+				}
+				if fd.Recv == nil {
+					byName[fd.Name.Name] = fd
+				}
+			}
+		}
+	}
 	var sb strings.Builder
-	sb.WriteString("import CanVerif.Model.Runner\n/- GENERATED by harness/cmd/extract from pkg/canrunner/run.go on every run; not committed. -/\nnamespace CanVerif.Gen\nopen CanVerif\n\n")
-	found := map[string]bool{}
-	for _, d := range f.Decls {
-		fd, ok := d.(*ast.FuncDecl)
-		if !ok || fd.Body == nil {
-			continue
+	sb.WriteString("import CanVerif.Model.Prog\n/- GENERATED by harness/cmd/extract from pkg/canrunner on every run; not committed. -/\nnamespace CanVerif.Gen\nopen CanVerif\n\n")
+	entries := []struct{ lean, gofn string }{{"receiverThread", "RunMessageReceiver"}, {"transmitterThread", "RunMessageTransmitter"}, {"runThread", "Run"}}
+	for _, e := range entries {
+		fd, ok := byName[e.gofn]
+		if !ok {
+			return fmt.Errorf("function %s not found", e.gofn)
 		}
-		switch fd.Name.Name {
-		case "RunMessageReceiver":
-			e := &extractor{msgVar: "m"}
-			for _, s := range fd.Body.List {
-				if fs, ok := s.(*ast.ForStmt); ok {
-					sb.WriteString(leanList("receiverBody", e.block(fs.Body.List)))
-					found["receiverBody"] = true
-				}
-			}
-			if e.err != nil {
-				return fmt.Errorf("RunMessageReceiver: %w", e.err)
-			}
-		case "RunMessageTransmitter":
-			for _, s := range fd.Body.List {
-				as, ok := s.(*ast.AssignStmt)
-				if !ok || len(as.Lhs) != 1 || len(as.Rhs) != 1 {
-					continue
-				}
-				id, ok1 := as.Lhs[0].(*ast.Ident)
-				fl, ok2 := as.Rhs[0].(*ast.FuncLit)
-				if !ok1 || !ok2 {
-					continue
-				}
-				var name string
-				switch id.Name {
-				case "transmit":
-					name = "transmitBody"
-				case "setCyclicTransmission":
-					name = "setCyclicBody"
-				default:
-					// every other closure must not touch message state at all
-					e := &extractor{msgVar: "m"}
-					atoms := e.block(fl.Body.List)
-					if e.err != nil {
-						return fmt.Errorf("closure %s: %w", id.Name, e.err)
-					}
-					if locking(atoms) {
-						return fmt.Errorf("closure %s touches node state", id.Name)
-					}
-					continue
-				}
-				e := &extractor{msgVar: "m"}
-				sb.WriteString(leanList(name, e.block(fl.Body.List)))
-				found[name] = true
-				if e.err != nil {
-					return fmt.Errorf("%s: %w", id.Name, e.err)
-				}
-			}
-			// the select loop and the code around it must not touch message state outside the closures
-			e := &extractor{msgVar: "m"}
-			for _, s := range fd.Body.List {
-				if fs, ok := s.(*ast.ForStmt); ok {
-					ast.Inspect(fs, func(n ast.Node) bool {
-						if c, ok := n.(*ast.CallExpr); ok {
-							a := e.callAtom(c)
-							if a == ".lock" || a == ".unlock" || strings.HasPrefix(a, ".access") || a == ".hook" || a == ".tx" {
-								e.fail("the select loop touches node state directly: %s", a)
-							}
-						}
-						return true
-					})
-				}
-			}
-			if e.err != nil {
-				return e.err
-			}
+		t.stack = []string{"func " + info.Defs[fd.Name].(*types.Func).FullName()}
+		p := t.funcBody(fd.Body, e.gofn)
+		if t.err != nil {
+			return fmt.Errorf("%s: %w", e.gofn, t.err)
 		}
+		fmt.Fprintf(&sb, "def %s : Prog := %s\n\n", e.lean, p)
 	}
-	for _, n := range []string{"receiverBody", "transmitBody", "setCyclicBody"} {
-		if !found[n] {
-			return fmt.Errorf("region %s not found", n)
+	sb.WriteString("def spawned : List Prog := [")
+	for i, p := range t.spawned {
+		if i > 0 {
+			sb.WriteString(",\n  ")
 		}
+		sb.WriteString(p)
 	}
-	sb.WriteString("\nend CanVerif.Gen\n")
-	return os.WriteFile(out, []byte(sb.String()), 0o644)
+	sb.WriteString("]\n\nend CanVerif.Gen\n")
+	return os.WriteFile(absOut, []byte(sb.String()), 0o644)
 }
 
 func main() {
